@@ -3,8 +3,8 @@
 (* environment (GEN_PHASES, JSON) so that one module serves every family.   *)
 EXTENDS BiomModel, MC_Tables, IOUtils
 
-H1(t, b, tag) == [heap |-> [a |-> Fresh(t)], builds |-> [a |-> b], tag |-> tag]
-H2(t, u, b, tag) == [heap |-> [a |-> Fresh(t), b |-> Fresh(u)], builds |-> [a |-> b, b |-> "dense"], tag |-> tag]
+H1(t, b, tag) == [heap |-> [a |-> Fresh(t)], builds |-> [a |-> b], tag |-> tag, gmd |-> <<>>]
+H2(t, u, b, tag) == [heap |-> [a |-> Fresh(t), b |-> Fresh(u)], builds |-> [a |-> b, b |-> "dense"], tag |-> tag, gmd |-> <<>>]
 
 MCInitHeaps ==
   {H1(T23, "dense", "T23"), H1(T23, "csr_unsorted", "T23u"), H1(T32, "csc", "T32"),
@@ -12,7 +12,7 @@ MCInitHeaps ==
    H2(T23, T23p, "dense", "T23+p"), H2(T33, T33p, "csr_unsorted", "T33+p"),
    H2(T23, T23same, "csc", "T23+same"), H2(T33, T33halfsame, "dense", "T33+halfsame")}
 
-H2b(t, u, b1, b2, tag) == [heap |-> [a |-> Fresh(t), b |-> Fresh(u)], builds |-> [a |-> b1, b |-> b2], tag |-> tag]
+H2b(t, u, b1, b2, tag) == [heap |-> [a |-> Fresh(t), b |-> Fresh(u)], builds |-> [a |-> b1, b |-> b2], tag |-> tag, gmd |-> <<>>]
 \* pairs for equality: equal content through different constructions, and single differences
 EqHeaps ==
   {H2b(T23, T23, "csr_zeros", "dense", "eq:zeros-dense"), H2b(T23, T23, "dense", "csr_zeros", "eq:dense-zeros"),
@@ -24,7 +24,7 @@ EqHeaps ==
    H2b(T23, T23zero, "csr_zeros", "csr_zeros", "ne:zero-vs-value")}
 
 H3(t, u, v, tag) == [heap |-> [a |-> Fresh(t), b |-> Fresh(u), c |-> Fresh(v)],
-                     builds |-> [a |-> "dense", b |-> "csr_unsorted", c |-> "csc"], tag |-> tag]
+                     builds |-> [a |-> "dense", b |-> "csr_unsorted", c |-> "csc"], tag |-> tag, gmd |-> <<>>]
 MergeHeaps ==
   {H2b(MA, MB, "dense", "csr", "mrg:both-md-partial"), H2b(MA0, MB, "csc", "dense", "mrg:other-md-partial"),
    H2b(MA, MBp, "csr_unsorted", "dense", "mrg:permuted"), H2b(MA0, MBp, "dense", "coo", "mrg:nomd-permuted"),
@@ -41,7 +41,17 @@ ConcatHeaps ==
 CountHeaps ==
   {H1(CT34, "dense", "CT34"), H1(CT34, "csc", "CT34csc"), H1(CT23, "csr_unsorted", "CT23u"),
    H1(CT23, "csr_zeros", "CT23z"), H1(T22, "coo", "T22"), H1(T32, "dense", "T32")}
-HeapSets == [std |-> MCInitHeaps, eq |-> EqHeaps, all |-> MCInitHeaps \cup EqHeaps, mrg |-> MergeHeaps,
+HG(t, b, tag, g) == [heap |-> [a |-> Fresh(t)], builds |-> [a |-> b], tag |-> tag, gmd |-> g]
+FileHeaps ==
+  {H1(F23num, "dense", "F23num"), H1(F23tax, "csr_unsorted", "F23tax"), H1(F11, "dense", "F11"),
+   H1(F13, "csc", "F13"), H1(F31, "coo", "F31"), H1(F33dense, "csr_unsorted", "F33dense"),
+   H1(T23, "csr_zeros", "T23z"), H1(T33, "csr_zeros", "T33z"), H1(T32, "csc", "T32"), H1(T22, "lil", "T22"),
+   H1(F24frac, "csr_zeros", "F24frac"), H1(F22zero, "dense", "F22zero"),
+   HG(F33dense, "dense", "F33gmd", <<<<"observation", "phylogeny", "newick", "((o1,o2),o3);">>,
+                                     <<"sample", "graph", "txt", "s1-s2; s2-s3">>>>),
+   HG(F23tax, "csc", "F23gmd", <<<<"observation", "tree", "newick", "(o1,o2);">>>>)}
+JsonHeaps == FileHeaps \cup {H1(F23json, "dense", "F23json")}
+HeapSets == [files |-> FileHeaps, json |-> JsonHeaps,std |-> MCInitHeaps, eq |-> EqHeaps, all |-> MCInitHeaps \cup EqHeaps, mrg |-> MergeHeaps,
              cat |-> ConcatHeaps, cnt |-> CountHeaps, stdcnt |-> MCInitHeaps \cup CountHeaps]
 MCHeaps == HeapSets[IOEnv.GEN_HEAPS]
 
